@@ -175,3 +175,7 @@ void vf_harness(void) { WebSocket_receive_frame(); VF_CANARY(); }
     trusted=['socket reads return arbitrary values; Array length arithmetic modelled by a ghost length (C01 contracts)'],
 )
 UNITS += [recv_iter]
+
+# the handshake accept key is encodeBase64(SHA1::hash(key + GUID)) (RFC 6455 4.2.2): the C15 units of those two functions serve this clause
+from units.C15 import encodeBase64 as _b64, sha_macros as _sham, sha_update as _shau
+UNITS += [_b64, _sham, _shau]
